@@ -105,6 +105,18 @@ def catalogue(n, origin=0, rng=None):
     out.append(SpanSpec('pd.DatetimeIndex[D]', (lambda n=n, o=origin: pd.date_range(start=f'{2001 + o}-02-27', periods=n, freq='D')),
                         [[d, d.strftime('%Y-%m-%d')] for d in dd], [pd.Timestamp('1999-01-01'), '1999-01-01'],
                         text_labels=[d.strftime('%Y-%m-%d') for d in dd]))
+    # text labels that are prefixes of / differ by blanks, quotes or case from each other (lists and NumPy string arrays)
+    tricky = ['2000 Q1', '2000 Q2', 'x', 'xy', 'xyz', "q'1", 'Q"2', 'X', 'x y', 'Xy'][:n]
+    tricky_absent = ['2000 Q1 ', '2000 Q', ' x', 'x ', 'xy\t', 'XY', 'xY', '2000 Q10', 'xyz\n']
+    out.append(SpanSpec('list[str] look-alikes', (lambda a=tricky: list(a)), [[x] for x in tricky], list(tricky_absent)))
+    out.append(SpanSpec('ndarray[str] look-alikes', (lambda a=tricky: np.array(a)), [[x] for x in tricky], list(tricky_absent)))
+    out.append(SpanSpec('pd.Index[str] look-alikes', (lambda a=tricky: pd.Index(a)), [[x] for x in tricky], list(tricky_absent)))
+    # floats, and huge negative integers
+    fl = [0.5, 1.5, -2.25, 3.5, 1e10, 7.0, 8.125, -0.75][:n]
+    out.append(SpanSpec('list[float]', (lambda a=fl: list(a)), [[x] for x in fl], [0.25, 7.000001, '0.5', 1e10 + 2048.0]))
+    out.append(SpanSpec('ndarray[float]', (lambda a=fl: np.array(a)), [[x] for x in fl], [0.25, 7.000001, 1e10 + 2048.0]))
+    big = -10 ** 12 + origin
+    out.append(SpanSpec('range(-10**12,..)', (lambda b=big, n=n: range(b, b + n)), [[x] for x in range(big, big + n)], [big - 1, big + n, -big]))
     # NumPy-scalar / standard-library spellings of the same labels (what iterating over an array or `index.values` yields)
     import datetime
     for spec in out:
@@ -114,7 +126,7 @@ def catalogue(n, origin=0, rng=None):
             p0 = alts[0]
             extra = []
             if isinstance(p0, (int, np.integer)) and not isinstance(p0, (bool, np.bool_)):
-                extra = [np.int64(p0), np.int32(p0)]
+                extra = [np.int64(p0)] + ([np.int32(p0)] if -2 ** 31 <= int(p0) < 2 ** 31 else [])
             elif isinstance(p0, str):
                 extra = [np.str_(p0)]
             elif isinstance(p0, pd.Timestamp):
